@@ -38,12 +38,22 @@ RefsE(e) == CASE e.t = "ref" -> {e.k}
               [] OTHER       -> UNION { RefsE(e.a[i]) : i \in DOMAIN e.a }
 
 Deps(g, k) == IF k \in DOMAIN g THEN RefsE(g[k]) ELSE {}
+\* dependency map, computed once per graph: key -> keys it refers to
+DepMap(g) == [k \in DOMAIN g |-> RefsE(g[k])]
+DepsD(D, k) == IF k \in DOMAIN D THEN D[k] ELSE {}
 
-RECURSIVE Reach(_, _)
-Reach(g, S) == LET T == S \cup UNION { Deps(g, k) : k \in S } IN IF T = S THEN S ELSE Reach(g, T)
+RECURSIVE ReachD(_, _)
+ReachD(D, S) == LET T == S \cup UNION { DepsD(D, k) : k \in S } IN IF T = S THEN S ELSE ReachD(D, T)
+Reach(g, S)     == ReachD(DepMap(g), S)
 Needed(g, S)    == Reach(g, S)                    \* S and everything S needs
 Ancestors(g, k) == Reach(g, Deps(g, k))           \* proper ancestors (k only if it lies on a cycle)
-Acyclic(g, S)   == \A k \in Needed(g, S) : k \notin Ancestors(g, k)
+\* keys that need k (k excluded unless it lies on a cycle): fixpoint over the reversed dependency map
+RECURSIVE UpD(_, _)
+UpD(D, S) == LET T == S \cup { x \in DOMAIN D : D[x] \cap S # {} } IN IF T = S THEN S ELSE UpD(D, T)
+DescendantsD(D, k) == UpD(D, { x \in DOMAIN D : k \in D[x] })
+\* every key of A is a proper ancestor of every key of C  (computed from the few keys of A upwards)
+AllBefore(g, A, C) == LET D == DepMap(g) IN \A p \in A : C \subseteq DescendantsD(D, p)
+Acyclic(g, S)   == LET D == DepMap(g) IN \A k \in ReachD(D, S) : k \notin ReachD(D, DepsD(D, k))
 
 \* ---- denotation (defined on the acyclic part; a reference to a key that is not in the graph denotes "missing")
 RECURSIVE DenE(_, _), DenK(_, _)
@@ -74,9 +84,9 @@ Regenerated(g, g2, out2, keep) == (Needed(g2, RangeS(out2)) \cap DOMAIN g) \subs
 ChildTasks(g, g2, out2) == { k \in Needed(g2, RangeS(out2)) \ DOMAIN g : k \in DOMAIN g2 /\ ~IsBlocker(g2[k]) }
 
 HappensBefore(op, g, out, g2, out2, parents) ==
-  CASE op = "bind"       -> \A c \in ChildTasks(g, g2, out2) : parents \subseteq Ancestors(g2, c)
-    [] op = "wait_on"    -> \A c \in RangeS(out2) : RangeS(out) \subseteq Ancestors(g2, c)
-    [] op = "checkpoint" -> \A c \in RangeS(out2) : RangeS(out) \subseteq Ancestors(g2, c)
+  CASE op = "bind"       -> AllBefore(g2, parents, ChildTasks(g, g2, out2))
+    [] op = "wait_on"    -> AllBefore(g2, RangeS(out), RangeS(out2))
+    [] op = "checkpoint" -> AllBefore(g2, RangeS(out), RangeS(out2))
     [] OTHER             -> TRUE
 
 \* who must wait for whom in an observed run
